@@ -322,6 +322,103 @@ func genCase(h *rt.H) (caseCfg, []string) {
 	return cfg, ops
 }
 
+// genLargeCase: a ring with 12..40 members (more than the small cases ever have), ONE or two members removed
+// — systematically the member that owns the LOWEST virtual node (entries[0]) — and lookups of keys chosen to
+// wrap around the top of the table (keys that a fresh ring maps to that lowest-node owner) plus random keys.
+// The generator asks a scratch ring of the real code which member owns entries[0] (VerifDump after a Lookup).
+func genLargeCase(h *rt.H) (caseCfg, []string) {
+	var cfg caseCfg
+	switch h.Intn(5) {
+	case 0:
+		cfg.spec = hashSpec{kind: "xxh3"}
+		cfg.dflt = true
+	case 1, 2:
+		cfg.spec = hashSpec{kind: "xxh3"}
+	case 3:
+		cfg.spec = hashSpec{kind: "spread", mod: uint64(20 + h.Intn(200))}
+	default:
+		cfg.spec = hashSpec{kind: "tiny", mod: uint64(50 + h.Intn(5000))}
+	}
+	n := 12 + h.Intn(29)
+	rp := rt.Pick(h, []int{1, 1, 2, 3, 5, 10, 20})
+	if h.Intn(8) == 0 {
+		rp = 100 // felix's configuration
+	}
+	pr := 1 + h.Intn(4)
+	ops := []string{fmt.Sprintf("new %d %d", rp, pr)}
+	names := make([]string, n)
+	style := h.Intn(3)
+	for i := range names {
+		switch style {
+		case 0:
+			names[i] = fmt.Sprintf("node-%d", i)
+		case 1:
+			names[i] = fmt.Sprintf("ip-10-0-%d-%d.ec2.internal", i/7, i*13%251)
+		default:
+			names[i] = fmt.Sprintf("n%x", h.Rng.Uint32())
+		}
+	}
+	for _, k := range names {
+		ops = append(ops, "ins "+xs(k)+" k"+hex.EncodeToString([]byte(k)))
+	}
+	// scratch ring of the real code: who owns the lowest virtual node, and which keys map to that member
+	scratch, _ := newRing(cfg.spec, rp, pr, cfg.dflt, nil)
+	for _, k := range names {
+		scratch.Insert(k, k)
+	}
+	scratch.Lookup("warm-up")
+	_, _, _, _, ks := scratch.VerifDump()
+	lowest, highest := ks[0], ks[len(ks)-1]
+	var wrapKeys, others []string
+	for i := 0; i < 400 && (len(wrapKeys) < 6 || len(others) < 6); i++ {
+		q := fmt.Sprintf("10.%d.%d.%d", h.Intn(4), h.Intn(256), h.Intn(256))
+		if v, _ := scratch.Lookup(q); v == lowest && len(wrapKeys) < 6 {
+			wrapKeys = append(wrapKeys, q)
+		} else if len(others) < 6 {
+			others = append(others, q)
+		}
+	}
+	queries := append(append([]string{}, wrapKeys...), others...)
+	lookAll := func() {
+		for _, q := range queries {
+			ops = append(ops, "look "+xs(q))
+		}
+	}
+	ops = append(ops, "look "+xs(queries[0]), "len")
+	// remove the owner of entries[0] (and sometimes a second member: the owner of the highest node or a random one)
+	victims := []string{lowest}
+	switch h.Intn(4) {
+	case 0:
+		victims = append(victims, highest)
+	case 1:
+		victims = append(victims, rt.Pick(h, names))
+	case 2:
+		victims = []string{rt.Pick(h, names)}
+	}
+	for _, v := range victims {
+		ops = append(ops, "rem "+xs(v))
+	}
+	ops = append(ops, "len")
+	lookAll()
+	if h.Intn(2) == 0 {
+		ops = append(ops, "dump")
+	}
+	// put a victim back (revives the pending delete, or re-inserts after the sweep), remove another member, look again
+	ops = append(ops, "ins "+xs(victims[0])+" v-back")
+	ops = append(ops, "rem "+xs(rt.Pick(h, names)))
+	lookAll()
+	// every member in turn: remove, look up the wrap keys, re-insert (bounded)
+	for i := 0; i < 4; i++ {
+		k := rt.Pick(h, names)
+		ops = append(ops, "rem "+xs(k), "look "+xs(queries[h.Intn(len(queries))]), "look "+xs(queries[0]), "ins "+xs(k)+" k"+hex.EncodeToString([]byte(k)))
+	}
+	ops = append(ops, "len", "look "+xs(queries[0]))
+	if rp <= 20 {
+		ops = append(ops, "dump")
+	}
+	return cfg, ops
+}
+
 func cfgLine(c caseCfg) string {
 	d := 0
 	if c.dflt {
@@ -380,7 +477,7 @@ func main() {
 	h := rt.New()
 	defer h.Close()
 	h.Rule = "case = one ring (hasher: real xxh3 default / xxh3 via WithHash / tiny-range / edge-values / spread; replicas 1..8 (rarely 0,-1,100), probes 1..7 (rarely 0,-2,21)) + 1..8 keys (pool incl. empty, NUL bytes, shared prefixes, 0xff) + 3..32 ops over {ins, rem, rem+ins, rem-all+look, look, len, dump}; " +
-		"oracle after every look: fresh rings from the current member set in two orders give the same owner; distinct = distinct (cfg, op sequence); non-trivial = case has a lookup on a ring with >=2 live members after at least one remove"
+		"every 100th case is a LARGE ring: 12..40 members, replicas 1..20 (sometimes 100), probes 1..4, the member owning the lowest virtual node (asked from a scratch ring of the real code) and/or other members removed, lookups of keys that wrap to that member plus random keys, re-insert, remove-look-reinsert rounds; oracle after every look: fresh rings from the current member set in two orders give the same owner; distinct = distinct (cfg, op sequence); non-trivial = case has a lookup on a ring with >=2 live members after at least one remove"
 	run := func(cfg caseCfg, ops []string, tag string) {
 		// ops[0] is `new`; insert the hash table lines right after it
 		order, table := dryRun(cfg, ops)
@@ -437,6 +534,12 @@ func main() {
 		return
 	}
 	for i := 0; i < h.N; i++ {
+		if i%100 == 50 { // large rings: every 100th case (quick tier: 25 cases, a few hundred lookups)
+			cfg, ops := genLargeCase(h)
+			h.Count("case:large-ring")
+			run(cfg, ops, "large")
+			continue
+		}
 		cfg, ops := genCase(h)
 		run(cfg, ops, "gen")
 	}
